@@ -3,7 +3,17 @@
    dispatch_group_wait and _dispatch_group_notify, their memory orders, _dg_state_gen, the DISPATCH_GROUP_* constants and
    the atomic-site lists are Gen_group, regenerated from src/semaphore.c / semaphore_internal.h.
    All statements are about every reachable state: any number of threads, any interleaving, any number of generations,
-   spurious futex returns and spurious weak-CAS failures included. *)
+   spurious futex returns and spurious weak-CAS failures included.
+   CLIENT CONTRACT.  Every theorem is about clients that keep enter / leave balanced and below 2^30 - 1 nested enters: for a
+   dispatch_group_leave at count zero and a dispatch_group_enter at the maximum count the library traps
+   (DISPATCH_CLIENT_CRASH); the thread automaton accepts the trapping operation (tstep goes to PCrash, so conformance of a
+   recorded trap is checked), the global model has no successor there (Group.geffect returns None), so runs of such clients
+   end at the step before the trap and no reachable state contains a trapped thread (C07_no_trap_state).
+   TIME.  The model has no clock.  What is proved about a non-zero result of dispatch_group_wait: it is returned only for a
+   zero timeout, for a TIMED futex wait to which the kernel reported ETIMEDOUT, or when the deadline had already passed
+   when the remaining time was computed; never for DISPATCH_TIME_FOREVER (the kernel semantics of the model: a futex wait
+   without timeout is never told ETIMEDOUT).  That the reported timeout is the full one is measured in the stress runs with
+   the library's own clock, not proved. *)
 From Coq Require Import ZArith Bool List.
 From Verif Require Import Word Conc Gen_consts Gen_group Group Group_iface Group_proofs GroupR_inv GroupR GroupR_proofs.
 Import ListNotations.
@@ -69,13 +79,38 @@ Theorem C07_wait_nonzero_only_by_timeout : forall p e v, tstep p e = Some (PRetV
   end.
 Proof. exact nonzero_only_by_timeout. Qed.
 Print Assumptions C07_wait_nonzero_only_by_timeout.
+(* ... and about reachable states of the global model, with the kernel's part: the ETIMEDOUT that makes a wait return
+   non-zero was reported for a wait that had a timeout *)
+Theorem C07_wait_nonzero_only_timed : forall s t e s' v,
+  reach s -> gstep s t e = Some s' -> pcs s' t = PRetV v -> v <> 0 ->
+  match pcs s t with
+  | PWtLoad tmo | PWtCas tmo _ _ => tmo = 0
+  | PSlow tmo _ => tmo <> FOREVER /\ ev_kind e DV_FUTEX_WAIT = false
+  | PSlowLoad tmo _ rc => rc = ETIMEDOUT /\ tmo <> FOREVER
+  | _ => False
+  end.
+Proof. exact wait_nonzero_only_timed. Qed.
+Print Assumptions C07_wait_nonzero_only_timed.
+Theorem C07_wait_forever_returns_zero : forall s t e s' v, reach s -> gstep s t e = Some s' ->
+  wait_tmo (pcs s t) = Some FOREVER -> pcs s' t = PRetV v -> v = 0.
+Proof. exact wait_forever_returns_zero. Qed.
+Print Assumptions C07_wait_forever_returns_zero.
+(* the timeout of the call is carried unchanged to the point where the result is decided *)
+Theorem C07_wait_timeout_carried : forall s t e s' x, reach s -> gstep s t e = Some s' -> wait_tmo (pcs s t) = Some x ->
+  wait_tmo (pcs s' t) = Some x \/ exists v, pcs s' t = PRetV v.
+Proof. exact wait_tmo_stable. Qed.
+Print Assumptions C07_wait_timeout_carried.
 
 (* ---- dispatch_group_notify ---- *)
-(* every notification is submitted at most once and only if it was registered *)
-Theorem C07_notify_exactly_once : forall s i, reach s ->
+(* every notification is submitted AT MOST once and only if it was registered.  Exactly once: every registered notification is
+   in exactly one place (C07_notify_accounted: listed, detached by one thread that is submitting, or submitted once); at
+   quiescence every registered notification has been submitted exactly once (C07_quiescent_state); in between, the thread that
+   holds the list always has an enabled step that moves it forward and its submit loop is bounded by the list
+   (C07_no_stuck, C07_submit_loop_bounded): every registered notification is submitted unless a thread stops being scheduled *)
+Theorem C07_notify_at_most_once : forall s i, reach s ->
   0 <= fcnt s i <= 1 /\ (fcnt s i = 1 -> 0 <= i < nreg s).
 Proof. exact (fun s i R => exactly_once s i R). Qed.
-Print Assumptions C07_notify_exactly_once.
+Print Assumptions C07_notify_at_most_once.
 (* every registered notification is in exactly one place: still on the list, detached by one thread that is in its
    submit loop, or submitted once *)
 Theorem C07_notify_accounted : forall s i, reach s -> 0 <= i < nreg s ->
@@ -143,11 +178,31 @@ Theorem C07_fresh_satisfiable : forall s, reach s -> gfull s < 4294967296 -> rea
 Proof. exact small_runs_are_fresh. Qed.
 Print Assumptions C07_fresh_satisfiable.
 
-(* reuse: the invariants are about every reachable state, so they hold again in every generation *)
-Theorem C07_reusable : forall s t e s', reach s -> valid_tid t -> gstep s t e = Some s' ->
-  reach s' /\ Inv1 s' /\ Inv2 s'.
-Proof. exact reusable. Qed.
-Print Assumptions C07_reusable.
+(* reuse: every theorem above is about runs over any number of generations (the witness of C07_notify_not_early_refuted and the
+   stress rounds span many); the state between two generations is the one of C07_quiescent_state (word = gen|0|0|0, list empty) *)
+
+(* ---- contract and progress ---- *)
+Theorem C07_no_trap_state : forall s t, reach s -> pcs s t <> PCrash.
+Proof. exact no_crash_state. Qed.
+Print Assumptions C07_no_trap_state.
+(* no thread inside a library call is ever stuck: it has an enabled step in every reachable state (a thread asleep in
+   futex_wait may always return); the two exceptions are the client contract.  For the thread that holds the notify list the
+   step constructed in the proof is the one that moves it forward *)
+Theorem C07_no_stuck : forall s t, reach s ->
+  (pcs s t = PEnter -> fv (word s) <> 1) -> (pcs s t = PLeave -> fv (word s) <> 0) ->
+  exists e s', gstep s t e = Some s'.
+Proof. exact no_stuck. Qed.
+Print Assumptions C07_no_stuck.
+Theorem C07_submit_loop_bounded : forall s t e s' k st, pcs s t = PFire k st -> gstep s t e = Some s' ->
+  (length (held s' t) + 1 = length (held s t))%nat /\ (held s' t = [] <-> pcs s' t = wake_tail k st).
+Proof. exact fire_decreases. Qed.
+Print Assumptions C07_submit_loop_bounded.
+(* the clearing loop of dispatch_group_leave retries only if another thread changed dg_state since the value was read *)
+Theorem C07_leave_loop_lock_free : forall s t e s' k old, pcs s t = PLvLoop k old -> gstep s t e = Some s' ->
+  (eok e = 1 /\ word s = old /\ word s' = leave_new old /\ pcs s' t = wake_entry k old) \/
+  (eok e <> 1 /\ word s <> old /\ word s' = word s /\ pcs s' t = lv_loop_entry k (word s)).
+Proof. exact leave_loop_retry_means_interference. Qed.
+Print Assumptions C07_leave_loop_lock_free.
 
 (* ---- ties ---- *)
 Theorem C07_sites_match_source :
